@@ -541,6 +541,23 @@ class Folder:
             left = right
         return True
 
+    def _class_attr(self, obj, attr):
+        """Class-level attribute (a table assigned in the class body) of a stand-in whose class is named: (value,) or None."""
+        cname = obj.fields.get("__class__")
+        cf = self._ctx_func()
+        if not isinstance(cname, str) or cf is None:
+            return None
+        k = cf.module.classes.get(cname)
+        seen = set()
+        while k is not None and id(k) not in seen:
+            seen.add(id(k))
+            for st in k.node.body:
+                tgt = st.targets[0] if isinstance(st, ast.Assign) and len(st.targets) == 1 else (st.target if isinstance(st, ast.AnnAssign) and st.value is not None else None)
+                if isinstance(tgt, ast.Name) and tgt.id == attr:
+                    return (self.ev(st.value, {}),)
+            k = next((b for b in k.bases if hasattr(b, "node")), None)
+        return None
+
     def _index_value(self, sl, env):
         try:
             return ("value", self.ev(sl, env))
@@ -622,6 +639,9 @@ class Folder:
         if isinstance(v, Obj):
             if n.attr in v.fields:
                 return v.fields[n.attr]
+            cv = self._class_attr(v, n.attr)
+            if cv is not None:
+                return cv[0]
             raise Raised("AttributeError", n)
         if isinstance(v, Opaque) and n.attr in v.fields:
             return v.fields[n.attr]
@@ -852,6 +872,8 @@ class Folder:
                 label = env[f.id].label
             elif isinstance(f, ast.Name) and f.id in env and isinstance(env[f.id], Sym):
                 label = repr(env[f.id])
+            if ov and label in ov:
+                return ov[label](args, kw)
             sy = Sym(label, args, kw)
             self.trace.append(sy)
             return sy
